@@ -12,6 +12,7 @@ def check(F, rep):
     rep.clause("the dns server reaches the *_unchecked constructors only from its own store / DHT conversion, never from the HTTP publish path")
     rep.undecided("`any modification is rejected` (cryptographic strength of ed25519)")
 
+    private_fields(F, rep, SP, "an unauthenticated SignedPacket cannot be built by literal outside iroh_dns::pkarr")
     sites = [x for x in ctor_sites(F, SP) if not x[0].derived]
     rep.exact("ctor_sites", "SignedPacket construction sites", len(sites), 3)
     allowed = {SP + "::from_txt_strings", SP + "::from_bytes", SP + "::from_bytes_unchecked"}
